@@ -9,7 +9,8 @@ import signal
 import sys
 import time
 import traceback
-from concurrent.futures import ProcessPoolExecutor, as_completed
+from concurrent.futures import ProcessPoolExecutor
+from concurrent.futures import TimeoutError as _FutTimeout, as_completed
 
 VERIF = os.path.dirname(os.path.dirname(os.path.abspath(__file__)))
 REPO = os.environ.get("NQV_SRC", "/repo")
@@ -163,7 +164,9 @@ def pmap(fn, arglist, jobs=None, timeout=3600):
         for a in arglist:
             total.merge(_worker_entry(fn, a))
         return total
-    with ProcessPoolExecutor(max_workers=min(jobs, len(arglist))) as ex:
+    ex = ProcessPoolExecutor(max_workers=min(jobs, len(arglist)), initializer=_init_worker)
+    hung = False
+    try:
         futs = [ex.submit(_worker_entry, fn, a) for a in arglist]
         deadline = time.time() + timeout
         for f in futs:
@@ -172,7 +175,73 @@ def pmap(fn, arglist, jobs=None, timeout=3600):
                 total.merge(r)
             except Exception as e:  # timeout, BrokenProcessPool
                 total.inconclusive.append("worker failed: %r" % (e,))
+                if isinstance(e, (TimeoutError, _FutTimeout)):
+                    hung = True
+    finally:
+        if hung:
+            # a worker that is stuck would make shutdown() wait for ever: kill it with everything it started
+            for p in list(getattr(ex, "_processes", {}).values()):
+                try:
+                    os.killpg(p.pid, signal.SIGKILL)
+                except (OSError, ProcessLookupError):
+                    try:
+                        p.kill()
+                    except Exception:
+                        pass
+            ex.shutdown(wait=False, cancel_futures=True)
+        else:
+            ex.shutdown(wait=True)
     return total
+
+
+def _init_worker():
+    """own process group (so that a stuck worker can be killed with its children) and death with the parent"""
+    try:
+        os.setpgrp()
+    except OSError:
+        pass
+    try:
+        import ctypes
+        ctypes.CDLL("libc.so.6", use_errno=True).prctl(1, int(signal.SIGKILL), 0, 0, 0)      # PR_SET_PDEATHSIG
+    except Exception:
+        pass
+
+
+def arm_watchdog(prop, seconds):
+    """hard limit for one whole check: a hang must end as 'inconclusive', never as silence"""
+    def fire(signum, frame):
+        try:
+            print("INCONCLUSIVE property=%s: watchdog - the check did not finish within %d s" % (prop, seconds), flush=True)
+            for c in _children_pgids():
+                try:
+                    os.killpg(c, signal.SIGKILL)
+                except OSError:
+                    pass
+        finally:
+            os._exit(2)
+    signal.signal(signal.SIGALRM, fire)
+    signal.alarm(int(seconds))
+
+
+def _children_pgids():
+    out = set()
+    me = os.getpid()
+    try:
+        for d in os.listdir("/proc"):
+            if not d.isdigit():
+                continue
+            try:
+                with open("/proc/%s/stat" % d) as f:
+                    st = f.read()
+                rest = st[st.rindex(")") + 2:].split()
+                ppid, pgrp = int(rest[1]), int(rest[2])
+                if ppid == me and pgrp != os.getpgrp():
+                    out.add(pgrp)
+            except (OSError, ValueError):
+                pass
+    except OSError:
+        pass
+    return out
 
 
 def chunks(n, k):
